@@ -9,21 +9,38 @@ def FAB(na, nb, nsym, **kw):
     d = {'NA': na, 'NB': nb, 'FA_NSYM': nsym}
     d.update(kw); return d
 
-# universes (free bits): shapes restrict edges / start / final bits, see harness/common/fa_universe.h; edge index = (q*FA_NSYM+a)*N+r
+def edges(n, nsym, pred):
+    """mask of the candidate edges (q,a,r) of an n-state automaton over nsym letters that satisfy pred; index (q*nsym+a)*n+r"""
+    m = 0
+    for q in range(n):
+        for a in range(nsym):
+            for r in range(n):
+                if pred(q, a, r): m |= 1 << ((q * nsym + a) * n + r)
+    return hex(m)
+
+# Universes: NA states of A, NB states of B, FA_NSYM letters; by default every edge (q,a,r), every start bit and every final
+# bit of both automata is a free solver variable.  Shapes (harness/common/fa_universe.h) cut 16-bit sub-universes out of the
+# larger spaces: X_EDGES = mask of candidate edges; X_START / X_FIN = states whose start / final bit is free;
+# X_STARTFIX / X_FINFIX = states that are start / final in every automaton of the universe.
 UNIV_QUICK = [
-  FAB(1, 2, 2),                                                              # 4+12 = 16 bits: A one state, B two states, letters a,b
-  FAB(2, 1, 2),                                                              # 12+4 = 16
-  FAB(2, 2, 1),                                                              # 8+8  = 16: one letter, everything free
-  FAB(1, 1, 3),                                                              # 5+5  = 10: three letters (letters of one operand only)
-  FAB(2, 2, 2, A_EDGES='0xcc', A_START=0, A_STARTFIX=1, B_START=0, B_STARTFIX=1),    # A: edges into state 1 only (4), start {0}, finals free; B: all 8 edges, start {0}, finals free: 6+10 = 16
-  FAB(2, 2, 2, A_START=0, A_STARTFIX=1, A_FIN=0, A_FINFIX=2, B_START=0, B_STARTFIX=1, B_FIN=0, B_FINFIX=3),  # all 8+8 edges free, A: 0 start, 1 final; B: 0 start, both final
+  FAB(1, 2, 2),                                                                      # 4+12 bits: A one state, B two states, letters a,b
+  FAB(2, 1, 2),                                                                      # 12+4
+  FAB(2, 2, 1),                                                                      # 8+8: one letter, everything free
+  FAB(1, 1, 3),                                                                      # 5+5: three letters (letters used by one operand only)
+  FAB(2, 2, 2, A_EDGES=edges(2, 2, lambda q, a, r: r == 1), A_START=0, A_STARTFIX=1, B_START=0, B_STARTFIX=1),    # 6+10: A edges into state 1 only, start {0}; B all 8 edges, start {0}; finals free
+  FAB(2, 2, 2, A_START=0, A_STARTFIX=1, A_FIN=0, A_FINFIX=2, B_START=0, B_STARTFIX=1, B_FIN=0, B_FINFIX=3),   # 8+8: all 16 edges free; A: 0 start, 1 final; B: 0 start, both final
+  FAB(1, 3, 1, B_START=0, B_STARTFIX=1),                                             # 3+12: B three states, one letter, start {0}
+  FAB(1, 3, 2, A_START=0, A_STARTFIX=1, A_FIN=0, A_FINFIX=1, B_EDGES=edges(3, 2, lambda q, a, r: r != 0), B_START=0, B_STARTFIX=1, B_FIN=6, B_FINFIX=1),   # 2+14: A = start+final state with free loops a,b; B three states, 12 edges (none into state 0), start {0} which is final, finals of 1,2 free
 ]
 UNIV_THOROUGH = UNIV_QUICK + [
-  FAB(3, 1, 1, A_START=0, A_STARTFIX=1),                                     # 9+3 + 3 = 15
-  FAB(1, 3, 1, B_START=0, B_STARTFIX=1),                                     # 3 + 9+3 = 15
-  FAB(2, 2, 2, A_EDGES='0x33', A_START=3, A_FIN=0, A_FINFIX=3, B_START=3, B_FIN=0, B_FINFIX=3),   # A: edges into state 0 only, both may start, all final; B: 8 edges, starts free, all final: 6+10 = 16
-  FAB(2, 2, 2, A_START=0, A_STARTFIX=1, A_FIN=0, A_FINFIX=2, B_START=0, B_STARTFIX=3, B_FIN=0, B_FINFIX=2),  # B: two start states, final {1}
-  FAB(1, 2, 2, PREP=0), FAB(2, 1, 2, PREP=0), FAB(2, 2, 1, PREP=0),          # direct library call on operands with disjoint numbers (no CLI sanitisation)
+  FAB(3, 1, 1, A_START=0, A_STARTFIX=1),                                             # 12+3
+  FAB(2, 2, 2, A_EDGES=edges(2, 2, lambda q, a, r: a == 1), A_START=3, A_FIN=0, A_FINFIX=3, B_START=3, B_FIN=0, B_FINFIX=3),   # 6+10: A uses letter b only, start bits free, all final; B 8 edges, start bits free, all final
+  FAB(2, 2, 2, A_START=0, A_STARTFIX=1, A_FIN=0, A_FINFIX=2, B_START=0, B_STARTFIX=3, B_FIN=0, B_FINFIX=2),   # 8+8: B with two start states, final {1}
+  FAB(2, 2, 2, A_START=0, A_STARTFIX=3, A_FIN=0, A_FINFIX=3, B_START=0, B_STARTFIX=1, B_FIN=0, B_FINFIX=1),   # 8+8: A both start and final, B: 0 start and final
+  FAB(2, 3, 1, A_START=0, A_STARTFIX=1, B_START=0, B_STARTFIX=1, B_FIN=4),           # 6+10: one letter, B three states with start {0}, only state 2 may be final
+  FAB(1, 2, 3, A_START=0, A_STARTFIX=1, A_FIN=0, A_FINFIX=1, B_START=0, B_STARTFIX=1, B_FIN=0, B_FINFIX=3),   # 3+12: three letters
+  FAB(1, 3, 2, A_START=0, A_STARTFIX=1, A_FIN=0, A_FINFIX=1, B_START=0, B_STARTFIX=1, B_FIN=0, B_FINFIX=7),   # 2+18 = 20 bits: all 18 edges of a three-state B, everything final (heavy)
+  FAB(1, 2, 2, PREP=0), FAB(2, 1, 2, PREP=0), FAB(2, 2, 1, PREP=0),                  # direct library call on operands with disjoint numbers (no CLI sanitisation)
 ]
 def c09_configs(univ, sels=(0, 1, 2)):
     return [dict(u, SEL=s) for u in univ for s in sels]
@@ -31,12 +48,15 @@ def c09_configs(univ, sels=(0, 1, 2)):
 CHECKS = {
  'C09': {
   'level': 'model_checking',
-  'explanation': 'x',
-  'bounds': {'quick': 'x', 'thorough': 'x'},
-  'outside': 'x',
+  'explanation': 'ExplicitFiniteAut::CheckInclusion executed symbolically for each implemented algorithm selection without simulation (antichains; congruence depth-first; congruence breadth-first), operands prepared as cli/operations.hh does (two automata numbered from 0, AutBase::SanitizeAutsForInclusion, then the library call which sanitises again and, for congruence, builds the disjoint union), on every pair of NFAs of the universe of the configuration (presence bit per edge, start bit and final bit per state); the verdict is compared with an independent subset-construction oracle (all reachable pairs of an A state and a B macro-state). One query per (universe, selection); since every selection equals the same oracle on the same universes they agree; two queries additionally run all three selections on the same pair and compare them directly.',
+  'bounds': {'quick': 'pairs (A,B) of NFAs with |Q_A|+|Q_B| <= 4 states over <= 3 letters: 1+2 and 2+1 states x 2 letters, 2+2 x 1 letter, 1+1 x 3 letters (all edges, start and final bits free, 10..16 bits), two 16-bit sub-universes of 2+2 states x 2 letters, 1+3 states x 1 letter and a 16-bit sub-universe of 1+3 states x 2 letters; 3 selections each',
+             'thorough': 'as quick plus 3+1 x 1 letter, three more 16-bit sub-universes of 2+2 x 2 letters (several start states on either side), 2+3 x 1 letter, 1+2 x 3 letters, a 20-bit universe 1+3 x 2 letters, and the direct library call (no CLI sanitisation, disjoint state numbers) on three universes'},
+  'outside': 'more than 3 states per operand or 5 in total, more than 3 letters, the selections that need a simulation relation (ExplicitFiniteAut::ComputeSimulation is not implemented: assert(false)), the equivalence variants (CLI: "Equivalence not implemented"), direct library calls on operands with overlapping state numbers, other heap address orders than the bump allocator\'s (the antichain work list is ordered by macro-state addresses)',
+  'assumptions': ['start symbols (the nullary Timbuk rules that make a state a start state) carry no language meaning; every start state is given the same start symbol'],
   'harnesses': [
     {'name': 'fa_incl', 'src': 'harness/C09/fa_incl.cc', 'tus': FA_INCL,
-     'configs': {'quick': c09_configs(UNIV_QUICK) + [FAB(1, 2, 1, SEL=3), FAB(1, 2, 2, PREP=0, SEL=1)], 'thorough': c09_configs(UNIV_THOROUGH) + [FAB(1, 2, 2, SEL=3), FAB(2, 2, 1, SEL=3)]},
+     'configs': {'quick': c09_configs(UNIV_QUICK) + [FAB(1, 2, 2, SEL=3), FAB(1, 2, 2, PREP=0, SEL=1)],
+                 'thorough': c09_configs(UNIV_THOROUGH) + [FAB(1, 2, 2, SEL=3), FAB(2, 2, 1, SEL=3)]},
      'selftest_config': FAB(1, 2, 2, SEL=0), 'selftests': ['VS_SELFTEST_1', 'VS_SELFTEST_2']},
   ],
  },
